@@ -217,6 +217,10 @@ impl Expr {
             Expr::Value(Value::Ident(ident)) if ident.is_const() => Some(ident.name()),
             Expr::Index { lhs_raw, .. } => lhs_raw.root_ident_if_const(),
             Expr::DotLookup { lhs, .. } => lhs.root_ident_if_const(),
+            // `(get c).n += 1` and `(c or d).n += 1` write through c as well
+            Expr::UnaryUnwrap { value, .. } => value.root_ident_if_const(),
+            Expr::NilEval { primary, .. } => primary.root_ident_if_const(),
+            Expr::Value(Value::MathExpr(inner)) => inner.root_ident_if_const(),
             _ => None,
         }
     }
